@@ -84,6 +84,7 @@ theorem step_shape (sw : Switches) (loadF : LoadF) (s : Stmt) (env : Env) (cfg :
   | mixin n => exact ⟨.loc rfl rfl rfl (by simp [step]), by intro e c h; simp [step] at h; rw [← h.1]⟩
   | css => exact ⟨.loc rfl rfl rfl (by simp [step, St.emit, cssOf]), by intro e c h; simp [step] at h; rw [← h.1]⟩
   | dbg => exact ⟨.loc rfl rfl rfl (by simp [step, St.emit, cssOf]), by intro e c h; simp [step] at h; rw [← h.1]⟩
+  | nested pid ctx n v => exact ⟨.loc rfl rfl rfl (by simp [step, St.emit, cssOf]), by intro e c h; simp [step] at h; rw [← h.1]⟩
   | use url ns withs =>
     simp only [step]
     generalize hc0 : (if withs.isEmpty = true then Cfg.empty else ({ base := withs, layers := [], explicit := true } : Cfg)) = c0
@@ -519,6 +520,7 @@ theorem step_fuel_err (sw : Switches) (loadF : LoadF) (s : Stmt) (env : Env) (cf
   | mixin n => simp [step] at h
   | css => simp [step] at h
   | dbg => simp [step] at h
+  | nested pid ctx n v => simp [step] at h
   | use url ns withs =>
     simp only [step] at h
     generalize hc0 : (if withs.isEmpty = true then Cfg.empty else ({ base := withs, layers := [], explicit := true } : Cfg)) = c0 at h
@@ -770,6 +772,7 @@ theorem step_graph (sw : Switches) (loadF : LoadF) (hG : GraphOK loadF) (s : Stm
   | mixin n => exact ⟨hw, Nat.le_refl _, by intro e c h; simp [step] at h; rw [← h.1]; exact hb⟩
   | css => exact ⟨hw, Nat.le_refl _, by intro e c h; simp [step] at h; rw [← h.1]; exact hb⟩
   | dbg => exact ⟨hw, Nat.le_refl _, by intro e c h; simp [step] at h; rw [← h.1]; exact hb⟩
+  | nested pid ctx n v => exact ⟨hw, Nat.le_refl _, by intro e c h; simp [step] at h; rw [← h.1]; exact hb⟩
   | use url ns withs =>
     simp only [step]
     generalize hc0 : (if withs.isEmpty = true then Cfg.empty else ({ base := withs, layers := [], explicit := true } : Cfg)) = c0
